@@ -52,7 +52,13 @@ RULE = ('histories of 1..14 events over 4 node ids: received vectors (newer/olde
         'returns or raises (or raises without publishing), in the steady state and inside a suppression period, for vectors '
         'that raise one or several entries / raise nothing / over-claim / name unknown nodes / are outdated elsewhere, followed '
         'by timer expiries; the model answers emissions, local vector, protocol state and the period the timer waits for, '
-        'compared after every event of every stream')
+        'compared after every event of every stream; a node-id stream: node ids (and the sync prefix) are NAMES - components of '
+        'every type 1..65535 and any bytes of any length (digest-typed components of a length other than 32, typed-number '
+        'components of widths 0..16, empty, 252..1000-byte (thorough: up to 70000-byte) and non-UTF-8 values, values that look '
+        'like URI syntax or TLV), written by the harness\'s own TLV writer, as ids of received vectors (first / middle / last '
+        'entry; raised, outdated, equal), as the local node id (handed over as component list / encoded name / escaped URI; '
+        'publications, echoes, over-claims) and as the sync prefix; pools contain relatives of an id (same values under '
+        'another type, prefix, extension, reversed, last byte changed) which must stay distinct nodes')
 
 BASE = '/sync'
 NODES = ['/n0', '/n1', '/n2', '/n3']
@@ -248,10 +254,205 @@ def _ctor_random(rng, n):
         yield c
 
 
+# ------------------------------------------------------------------ node ids are NAMES: every legal component
+# A node id (and the sync prefix) is an NDN name, so its components may be of any type 1..65535 and carry any bytes of
+# any length.  Explicit ids are written '~<type>:<value hex>/...' (c18_bytes.nid_comps) and are encoded by the harness's
+# own TLV writer, never by the library.
+NUM_TYPES = [50, 52, 54, 56, 58]            # segment, byte offset, version, timestamp, sequence number
+OTHER_TYPES = [3, 4, 5, 6, 7, 9, 16, 31, 33, 127, 252, 253, 254, 255, 256, 1000, 0x7fff, 0xfffe, 0xffff]
+SPECIAL_VALUES = [b'', b'.', b'..', b'...', b'....', b'%', b'=', b'/', b'a/b', b'8=a', b'%41', b' ', b'\x00', b'\x00\x00',
+                  b'\xff', b'\xff\xfe', b'\x80', b'\xc3', b'\xc3\x28', b'\xed\xa0\x80', b'\xf8\x88\x80\x80\x80',
+                  'Σπ'.encode(), b'n0', b'n1', b'\x07\x03\x08\x01a', b'\x08\x01a', b'sha256digest=00', b'seg=1',
+                  b'\n', b'\r\n', b'{}', b'%s', b'\\x00', b'a' * 252, b'b' * 253, b'c' * 300, b'\x00' * 700]
+
+
+def _odd_components():
+    """a fixed list of (type, value): every class once or a few times"""
+    out = []
+    for t in (1, 2):
+        for n in (0, 1, 3, 16, 31, 33, 64):
+            out.append((t, bytes((7 * i + n) % 256 for i in range(n))))
+    for k, t in enumerate(NUM_TYPES):
+        for n in (0, 3, 5, 6, 7, 9, 16)[k % 2::2] + (1, 2, 4, 8)[k % 4:k % 4 + 1]:
+            out.append((t, bytes([0] * (n - 1) + [3]) if n else b''))
+    out.append((50, b'\xff' * 8))
+    out.append((58, b'\x00' * 8))
+    for t in OTHER_TYPES:
+        out.append((t, b'x'))
+    for v in SPECIAL_VALUES:
+        out.append((8, v))
+    out += [(32, b''), (32, b'\xff\x00'), (1, b'\x00' * 32), (2, b'\xff' * 32), (0xffff, b''), (253, b'd' * 253)]
+    return out
+
+
+def _odd_component(rng, big=False):
+    r = rng.random()
+    if r < 0.25:
+        t, n = rng.choice([1, 2]), rng.choice([0, 1, 2, 3, 8, 16, 20, 31, 32, 32, 33, 48, 64])
+    elif r < 0.45:
+        t, n = rng.choice(NUM_TYPES), rng.choice([0, 1, 2, 3, 4, 5, 6, 7, 8, 9, 12, 16])
+    elif r < 0.55:
+        t, n = rng.choice([32, 8]), rng.choice([0, 1, 2, 5])
+    elif r < 0.75:
+        return [8, rng.choice(SPECIAL_VALUES)]
+    else:
+        t, n = rng.choice(OTHER_TYPES + [rng.randint(1, 0xffff)]), rng.choice([0, 1, 1, 2, 4, 32])
+    if rng.random() < 0.04:
+        n = rng.choice([252, 253, 254, 255, 256, 300, 1000] + ([65535, 65536, 70000] if big else []))
+    c = rng.random()
+    if c < 0.5:
+        v = bytes(rng.randrange(256) for _ in range(n))
+    elif c < 0.65:
+        v = bytes([rng.choice([0, 0xff, 0x80, 0x2e, 0x25, 0x2f])]) * n
+    elif c < 0.8:
+        v = bytes(rng.choice(b'abn01.-_~%=/ ') for _ in range(n))
+    else:
+        v = (b'\x00' * n + bytes([rng.randrange(256)]))[-n:] if n else b''
+    return [t, v]
+
+
+def _odd_id(rng, big=False):
+    """a name of 1..4 components, at least one of them unusual; plain generic components around it"""
+    from props import c18_bytes
+    k = rng.choice([1, 1, 2, 2, 3, 4])
+    odd_at = rng.randrange(k)
+    comps = []
+    for i in range(k):
+        if i == odd_at or rng.random() < 0.3:
+            comps.append(_odd_component(rng, big))
+        else:
+            comps.append([8, rng.choice([b'n', b'node', b'x', b'n1', b'alice'])])
+    return c18_bytes.nid_make(comps)
+
+
+def _relative(rng, nid):
+    """another name that a comparison by anything less than the full encoding confuses with `nid`: the same value under
+    another type, a prefix, an extension, the components reversed, the last value one byte longer / shorter / flipped"""
+    from props import c18_bytes
+    ps = [list(p) for p in c18_bytes.nid_pairs(nid)]
+    r = rng.randrange(8)
+    if r == 0:
+        j = rng.randrange(len(ps))
+        ps[j][0] = rng.choice([t for t in [8, 32, 1, 2, 50, 54, 9, 0xffff] if t != ps[j][0]])
+    elif r == 1 and len(ps) > 1:
+        ps = ps[:-1]
+    elif r == 2:
+        ps = ps + [[8, b'']]
+    elif r == 3 and len(ps) > 1 and ps != ps[::-1]:
+        ps = ps[::-1]
+    elif r == 4:
+        ps[-1][1] = ps[-1][1] + b'\x00'
+    elif r == 5 and ps[-1][1]:
+        ps[-1][1] = ps[-1][1][:-1]
+    elif r == 6 and ps[-1][1]:
+        ps[-1][1] = ps[-1][1][:-1] + bytes([ps[-1][1][-1] ^ 0x20])
+    else:
+        ps = [[8, b'']] + ps
+    return c18_bytes.nid_make(ps)
+
+
+def _odd_pool(rng, big=False):
+    pool = []
+    while len(pool) < 4:
+        nid = _relative(rng, rng.choice(pool)) if pool and rng.random() < 0.35 else _odd_id(rng, big)
+        if nid not in pool and nid != '~':
+            pool.append(nid)
+    return pool
+
+
+def _odd_me(rng, c, me):
+    c['me'] = me
+    c['me_arg'] = {rng.choice(['comps', 'comps', 'bytes', 'str']): me}
+    return c
+
+
+def _odd_targeted():
+    """every unusual component class, as a single-component id and inside a longer id: in the MIDDLE of a received vector
+    (entries before and after it, so that a merge that stops there shows), raised / outdated / equal; as the local node id
+    with publications, echoes of the own entry, and a vector in which a SIBLING id (the same values, one component under
+    another type) claims more than the own number; as a component of the sync prefix with a malformed vector and a
+    wrong-length name (the paths that log the whole name)"""
+    from props import c18_bytes
+    a, b = NODES[1], NODES[2]
+    for n, (t, v) in enumerate(_odd_components()):
+        odd = c18_bytes.nid_make([(t, v)] if n % 2 else [(8, b'node'), (t, v), (8, b'x')])
+        other = c18_bytes.nid_make([(8, b'node'), (t, v)] if n % 2 else [(t, v)])
+        yield {'seq0': n % 3, 'events': [['r', [[a, 4], [odd, 5], [b, 7]]], ['r', [[odd, 3], [a, 6], [other, 1]]], ['t'],
+                                         ['rp', [[b, 7], [odd, 6], [other, 2]], 1], ['t']]}
+        if n % 3 == 0:
+            sib = c18_bytes.nid_make([(p, w) if (p, w) != (t, v) else (32 if t == 8 else 8, v)
+                                      for p, w in c18_bytes.nid_pairs(odd)])
+            c = {'seq0': n % 4, 'me': odd, 'me_arg': {('comps', 'bytes', 'str')[(n // 3) % 3]: odd}}
+            evs = [['p']]
+            if n % 2 == 0:
+                c['late_start'] = True
+                evs = [['p'], ['start']]
+            own = n % 4 + 1
+            c['events'] = evs + [['r', [[a, 2], [odd, own], [sib, own + 2], [other, 3]]], ['t'],
+                                 ['r', [[other, 1], [odd, own - 1], [a, 5]]], ['t'],
+                                 ['r', [[a, 9], [odd, own + 1], [b, 9]]], ['x'], ['p'], ['t']]
+            yield c
+        if n % 6 == 1:
+            yield {'seq0': 1, 'base_arg': {('comps', 'bytes', 'str')[(n // 6) % 3]: other + '/8:73796e63'},
+                   'events': [['r', [[a, 4], [odd, 5]]], ['raw', 'ff'], ['badlen'], ['t'], ['r', [[odd, 1]]], ['raw', ''], ['t'], ['p']]}
+
+
+def _odd_random(rng, n, big=False):
+    """random histories over a pool of 4 unusual node ids (some of them relatives of each other); the local node id is one
+    of them in most cases; received vectors as entries handed to the library's encoder and as (mutated) bytes written by
+    the harness; callbacks that publish; an unusual sync prefix now and then"""
+    from props import c18_bytes
+    for _ in range(n):
+        pool = _odd_pool(rng, big)
+        c = {'seq0': rng.choice([0, 0, 1, 3])}
+        me = NODES[0]
+        if rng.random() < 0.6:
+            me = pool[0]
+            _odd_me(rng, c, me)
+        nodes = [me] + pool[1:]
+        if rng.random() < 0.15:
+            c['base_arg'] = {rng.choice(['comps', 'bytes', 'str']): _odd_id(rng)}
+        if rng.random() < 0.15:
+            c['late_start'] = True
+        hint = {me: c['seq0']}
+        evs = [['start']] if c.get('late_start') and rng.random() < 0.5 else []
+        for _ in range(rng.randint(2, 10)):
+            r = rng.random()
+            if r < 0.42:
+                v = _vector(rng, hint, nodes)
+                if rng.random() < 0.25:
+                    v.append([me, min(2**64 - 1, hint[me] + rng.choice([0, 0, 1]))])
+                    rng.shuffle(v)
+                evs.append(['r', v])
+            elif r < 0.52:
+                kind = rng.choice(['rp', 'rx'])
+                k = rng.choice([1, 2]) if kind == 'rp' else rng.choice([0, 1])
+                evs.append([kind, _vector(rng, hint, nodes), k])
+                hint[me] += k
+            elif r < 0.62:
+                bts, tag = c18_bytes.component(rng, _vector(rng, hint, nodes))
+                evs.append(['comp', bts.hex(), tag])
+            elif r < 0.76:
+                evs.append(['p'])
+                hint[me] += 1
+            elif r < 0.93:
+                evs.append(['t'])
+            elif r < 0.96:
+                evs.append(['start'] if c.get('late_start') else ['x'])
+            elif r < 0.98:
+                evs.append(['raw', bytes(rng.randrange(256) for _ in range(rng.randint(0, 4))).hex()])
+            else:
+                evs.append(['badlen'])
+        c['events'] = evs
+        yield c
+
+
 def cases(rng, tier):
     yield from _targeted()
     yield from _resumed()
     yield from _ctor_random(rng, 150 if tier == 'quick' else 4000)
+    yield from _odd_targeted()
+    yield from _odd_random(rng, 70 if tier == 'quick' else 6000, big=tier != 'quick')
     if tier == 'thorough':
         # exhaustive small scope first (7 + 49 + 343 + 2401 + 16807 histories), then the random stream
         yield from _exhaustive(5)
@@ -368,6 +569,17 @@ def _byte_cases(rng, n):
         yield {'seq0': seq0, 'events': evs}
 
 
+def _explicit_ids(case):
+    """the explicit names of a case: local node id, sync prefix, node ids of the received vectors"""
+    out = []
+    for k in ('me_arg', 'base_arg'):
+        out += [x for x in (case.get(k) or {}).values() if isinstance(x, str) and x.startswith('~')]
+    for e in case['events']:
+        if e[0] in ('r', 'r@', 'rp', 'rx'):
+            out += [x[0] for x in e[1] if isinstance(x[0], str) and x[0].startswith('~')]
+    return out
+
+
 def shrink(case):
     evs = case['events']
 
@@ -392,6 +604,24 @@ def shrink(case):
                 yield mk(evs[:i] + [['r', e[1]]] + evs[i + 1:])
         if e[0] in ('r@', 'p@'):
             yield mk(evs[:i] + [[e[0][0]] + e[1:]] + evs[i + 1:])
+    # explicit node ids ('~type:hex/...'): one component dropped, a long value halved, a value emptied - replaced
+    # wherever the id occurs in the case
+    import json
+    from props import c18_bytes
+    text = json.dumps(case)
+    ids = sorted(set(x for x in _explicit_ids(case)), key=len, reverse=True)
+    for nid in ids:
+        ps = c18_bytes.nid_pairs(nid)
+        cands = [ps[:q] + ps[q + 1:] for q in range(len(ps))] if len(ps) > 1 else []
+        for q, (t, v) in enumerate(ps):
+            if len(v) > 4:
+                cands.append(ps[:q] + [(t, v[:len(v) // 2])] + ps[q + 1:])
+            elif v:
+                cands.append(ps[:q] + [(t, b'')] + ps[q + 1:])
+        for cand in cands:
+            new = c18_bytes.nid_make(cand)
+            if new != '~' and new not in ids:
+                yield json.loads(text.replace(json.dumps(nid), json.dumps(new)))
     for k in ('twin', 'intervals', 'base_arg'):
         if case.get(k):
             d = dict(case)
@@ -448,19 +678,34 @@ def _canon_vec(d):
 
 
 def _name_arg(enc, arg):
-    """the value handed to the constructor for a name: URI string, list of component strings, or encoded bytes"""
+    """the value handed to the constructor for a name: URI string, list of component strings, or encoded bytes; for an
+    explicit name ('~...'): the fully escaped URI, the list of encoded components, or the encoded name - all three
+    written by the harness's own TLV writer"""
+    from props import c18_bytes
     if 'str' in arg:
-        return arg['str']
+        return c18_bytes.nid_uri(arg['str']) if arg['str'].startswith('~') else arg['str']
     if 'list' in arg:
         return list(arg['list'])
+    if 'comps' in arg:
+        return [bytes(c) for c in c18_bytes.nid_comps(arg['comps'])]
+    if arg['bytes'].startswith('~'):
+        return c18_bytes.name_bytes(arg['bytes'])
     return bytes(enc.Name.to_bytes(arg['bytes']))
+
+
+def _nid_value(nid):
+    """what is assigned to StateVecEntry.node_id: the URI, or the list of encoded components of an explicit id"""
+    if isinstance(nid, str) and nid.startswith('~'):
+        from props import c18_bytes
+        return [bytes(c) for c in c18_bytes.nid_comps(nid)]
+    return nid
 
 
 def _base_uri(case):
     a = case.get('base_arg')
     if not a:
         return BASE
-    return a.get('str') or a.get('bytes') or '/' + '/'.join(a['list'])
+    return a.get('str') or a.get('bytes') or a.get('comps') or '/' + '/'.join(a['list'])
 
 
 def run_impl(case):
@@ -493,13 +738,18 @@ def run_impl(case):
         app = _FakeApp()
         me_uri = case.get('me', NODES[0])
         base_uri = _base_uri(case)
-        base = enc.Name.normalize(base_uri)
-        base_key = bytes(enc.Name.to_bytes(base_uri))
-        self_id = enc.Name.to_bytes(me_uri)
+        from props import c18_bytes
+        if base_uri.startswith('~'):
+            base = [bytes(c) for c in c18_bytes.nid_comps(base_uri)]
+            base_key = c18_bytes.name_bytes(base_uri)
+        else:
+            base = enc.Name.normalize(base_uri)
+            base_key = bytes(enc.Name.to_bytes(base_uri))
+        self_id = c18_bytes.name_bytes(me_uri) if me_uri.startswith('~') else enc.Name.to_bytes(me_uri)
         if case.get('twin'):
             # another instance of the class, used and stopped before this one is built: nothing of it may show here
             tapp = _FakeApp()
-            twin = svs_sync.SvsInst(base_uri, '/twin', lambda i: None, None, None, last_used_seq_num=7)
+            twin = svs_sync.SvsInst(list(base) if base_uri.startswith('~') else base_uri, '/twin', lambda i: None, None, None, last_used_seq_num=7)
             twin.new_data()
             loop.call_now(twin.start, tapp)
             h = tapp.handlers.get(base_key)
@@ -580,7 +830,7 @@ def run_impl(case):
                     pkt.val.entries = []
                     for nid, seq in ev[1]:
                         e = StateVecEntry()
-                        e.node_id = nid
+                        e.node_id = _nid_value(nid)
                         e.seq_no = seq
                         pkt.val.entries.append(e)
                     comp = bytes(pkt.encode())
@@ -953,6 +1203,26 @@ def tags(case, impl):
         if e[0] == 'comp' and len(e) > 2:
             t.append('mut:' + e[2])
     t.append('len:%d' % len(case['events']))
+    ids = set(_explicit_ids(case))
+    if ids:
+        from props import c18_bytes
+        for k in ('me_arg', 'base_arg'):
+            if str(next(iter((case.get(k) or {'': ''}).values()))).startswith('~'):
+                t.append('explicit-' + k[:-4])
+        for nid in ids:
+            for ty, v in c18_bytes.nid_pairs(nid):
+                cl = ('digest-len-32' if len(v) == 32 else 'digest-len-other') if ty in (1, 2) else \
+                    ('number-width-1248' if len(v) in (1, 2, 4, 8) else 'number-width-other') if ty in NUM_TYPES else \
+                    'generic' if ty == 8 else 'keyword' if ty == 32 else 'other-type'
+                t.append('nid-comp:' + cl)
+                if not v:
+                    t.append('nid-comp:empty')
+                if len(v) >= 253:
+                    t.append('nid-comp:long')
+                try:
+                    v.decode()
+                except UnicodeDecodeError:
+                    t.append('nid-comp:non-utf8')
     for rec in impl['trace']:
         if rec['ev'] == 'p' and not rec.get('running', True):
             t.append('publish-while-not-running')
